@@ -3,7 +3,7 @@ TLC enumerate / generate / judge, and reports through vlib.Check."""
 import os, json, hashlib, shutil, glob, time
 from vlib import *
 
-ALPHAS = ["struct", "quote", "block", "prop", "break", "docmark", "tab", "dir"]
+ALPHAS = ["struct", "quote", "block", "prop", "break", "docmark", "tab", "dir", "flow", "keys"]
 
 
 def spec_hash(mods):
@@ -175,7 +175,7 @@ def run_recorder(ck, cmd_args, out, timeout=3600):
 
 # ------------------------------------------------------------------------------------------------
 def c01(ck):
-    ck.rule = ("inputs = all texts <= N over 8 indicator alphabets (TLC-enumerated, model invariants checked in every state) "
+    ck.rule = ("inputs = all texts <= N over 10 indicator alphabets (TLC-enumerated, model invariants checked in every state) "
                "+ suite corpus + seeded mutants/truncations + token and line soups + boundary families; each run through "
                "6 input back-ends x 4 APIs (counted input operations) and 8 loader configurations; distinct = distinct input texts")
     ck.assumptions = ["panics are caught with catch_unwind in a build with debug assertions and overflow checks",
